@@ -414,11 +414,12 @@ func isIDType(t *ast.Type) bool {
 }
 
 func isNonNullableTypeNamed(t *ast.Type, typename string) bool {
-	return t.Name() == typename && t.NonNull
+	// t.Name() is the innermost name: a list of the type is not the type
+	return t.Elem == nil && t.Name() == typename && t.NonNull
 }
 
 func isNullableTypeNamed(t *ast.Type, typename string) bool {
-	return t.Name() == typename && !t.NonNull
+	return t.Elem == nil && t.Name() == typename && !t.NonNull
 }
 
 func isNodeField(f *ast.FieldDefinition) bool {
